@@ -12,10 +12,12 @@ ap.add_argument("prop"); ap.add_argument("which")
 ap.add_argument("--props", default=None); ap.add_argument("--scale", default=None)
 ap.add_argument("--shards", default=None); ap.add_argument("--tier", default="quick")
 ap.add_argument("--seed", default="0")
+ap.add_argument("--round", type=int, default=1, help="round 2 reads /tmp/seed2 and stores A/B as C/D")
 a = ap.parse_args()
-src = "/tmp/seed/%s/out" % a.prop
+src = ("/tmp/seed/%s/out" if a.round == 1 else "/tmp/seed%d/%%s/out" % a.round) % a.prop
+label = a.which if a.round == 1 else chr(ord(a.which) + 2 * (a.round - 1))
 patch, demo, notes = [os.path.join(src, "%s%s" % (a.which, s)) for s in (".diff", "_demo.py", "_notes.md")]
-meta = {"property": a.prop, "variant": a.which, "ran": []}
+meta = {"property": a.prop, "variant": label, "round": a.round, "ran": []}
 wt = tempfile.mkdtemp(prefix="vf-seed-", dir="/tmp"); os.rmdir(wt)
 subprocess.check_call(["git", "-C", "/repo", "worktree", "add", "--detach", "-q", wt])
 env = dict(os.environ, PYTHONDONTWRITEBYTECODE="1", PYTHONPATH=os.path.join(wt, "src"))
@@ -50,7 +52,7 @@ valid = meta.get("demo_on_unchanged_tree_exit") == 0 and meta.get("repo_tests_pa
 meta["confirmed"] = bool(valid)
 print(json.dumps(meta, indent=1))
 if valid:
-    dst = "/verif/seeded/%s-%s" % (a.prop, a.which)
+    dst = "/verif/seeded/%s-%s" % (a.prop, label)
     os.makedirs(dst, exist_ok=True)
     shutil.copy(patch, os.path.join(dst, "patch.diff")); shutil.copy(demo, os.path.join(dst, "demo.py"))
     if os.path.exists(notes):
